@@ -21,11 +21,17 @@ META = {
                   "archives (with/without listfile, attributes, all add options, contents from 1 byte to several sectors); after every close a fresh "
                   "Archive::open reads EVERY name of the universe and lists the archive; TLC validates the recorded trace against MpqMap (failed call => "
                   "unchanged, refusal only where legitimate, reads and listing equal the model's disk, in-session reads equal the session view, untouched "
-                  "names keep their tokens, every call returns).",
+                  "names keep their tokens, every call returns). Growth round 4: the special files are an explicit sub-machine (MpqMapSpecials, layered on MpqMap: "
+                  "listfile as a sequence of lines with spellings, attributes rows per block, session bookkeeping, the view of the session's Archive object; "
+                  "maintenance steps as the code does them; design invariants model-checked, every deviation of the code refuted by TLC) that Trace_MpqMap runs "
+                  "next to MpqMap: after every close the raw (listfile) lines (complete, no stale line, no duplicate) and the parsed (attributes) rows (row of the "
+                  "block of every file = CRC32/MD5 of its current content) are verdict conjuncts; spellings of names, empty contents, long names (listfile above "
+                  "512 bytes), compression method x encryption x fix_key x replace and a near-full 16-slot table reached through a forced prologue (canonical "
+                  "enumeration of all 4-call histories over 4 names) are generator dimensions; the stored form of added files is a diagnostic conjunct.",
     "level_note": "Model-checking results are statements about the models; the binding to the code is replay + trace validation on the generated histories "
                   "(long histories are sampled; the exhaustive classes are replayed as seed-rotated residue classes). Contents are compared as SHA-1 tokens. "
-                  "list() is a verdict conjunct only for archives that carry a listfile; (attributes) maintenance is observed as a diagnostic only "
-                  "(CRC32 of readable files), being integrity metadata. Crash atomicity of flush / rename is not part of C06.",
+                  "list() and the raw listfile are verdict conjuncts only for archives that carry a listfile; FILETIME values are compared as zero / set only; "
+                  "compact() dropping the (attributes) file is modelled as coded and not judged. Crash atomicity of flush / rename is not part of C06.",
     "technique": "TLA+ refinement (MpqHashTable => MpqMap) model-checked with TLC, former code behaviours refuted by TLC; TLC-generated histories with predictions replayed on MutableArchive; TLC trace validation against MpqMap",
     "design_ref": "DESIGN.md section 5, C06",
     "crates": ["c06"],
@@ -51,6 +57,11 @@ def _classes(ctx):
     add("xb", "bfs", ver=2, lf=0, slack=31, names=3, init=2, minlen=1, maxlen=3 if t else 2)
     # the same with a name whose spelling is contained in another's (listfile maintenance)
     add("sb", "bfs", ver=1 + s % 2, lf=1, slack=31, names=3, init=1, minlen=1, maxlen=4 if t else 3, sub=1)
+    # near-full table (growth round 4): a forced prologue of 11 additions through MutableArchive leaves 2 free slots of 16; every
+    # history of <= 4 further calls over 4 names in canonical form (Gen_MpqHashTable: GCanon), a seed-rotated residue class of
+    # which is replayed (quick ~900, thorough ~6000 of 40 904)
+    # (5 further calls = ~570 000 canonical histories: beyond the budget of both tiers - measured 40 904 histories / 263 515 states for 4)
+    add("x5", "bfs", ver=1 + s % 2, lf=1, slack=31, names=4, init=1, minlen=1, maxlen=4, ballast=11, canon=1)
     # histories of exactly 4 / 5 calls over the same 3 names (wrapped probe chain): a seed-rotated random sample of the
     # 194 481 / 4 084 101 histories the exhaustive classes stop short of in quick
     add("r4", "sim", num=500 * n4, ver=1 + s % 4, lf=1, slack=31, names=3, init=1, minlen=4, maxlen=4, enc=1)
@@ -67,6 +78,15 @@ def _classes(ctx):
         add("s%d" % sl, "sim", num=8 * n, ver=1 + (s + i) % 2, lf=lf, slack=sl, names=5, init=1, minlen=3 + sl, maxlen=3 + sl)
     # attributes file present
     add("at", "sim", num=10 * n, ver=1 + s % 2, lf=1, at=1, slack=31, names=5, init=2, minlen=6, maxlen=6)
+    # ... with all three columns (CRC32, FILETIME, MD5): rows of untouched files across several dirty flushes of one session
+    add("af", "sim", num=16 * n, ver=2 - s % 2, lf=1, at=2, slack=31, names=4, init=2, minlen=7, maxlen=7, kinds="fl")
+    add("ag", "sim", num=6 * n, ver=1 + s % 2, lf=0, at=2, slack=31, names=4, init=2, minlen=5, maxlen=5, kinds="fl")
+    # rename chains a -> b -> a, remove + add of the same name across flush / reopen, compact in between (2 and 3 names, all spellings)
+    # name-length class "long" ((listfile) above one 512-byte unit): every history of <= 3 calls, and rename / add / remove chains
+    add("xl", "bfs", ver=1 + (s + 1) % 2, lf=1, slack=31, names=3, init=1, minlen=2, maxlen=3 if t else 2, long=1)
+    add("rl", "sim", num=24 * n, ver=1 + s % 2, lf=1, at=(s % 3), slack=31, names=3, init=1, minlen=6, maxlen=6, kinds="rc", long=1)
+    add("rc", "sim", num=40 * n, ver=1 + s % 2, lf=1, slack=31, names=2, init=1, minlen=8, maxlen=8, kinds="rc", enc=1)
+    add("rd", "sim", num=20 * n, ver=2 - s % 2, lf=1, at=1 + s % 2, slack=31, names=3, init=2, minlen=10, maxlen=10, kinds="rc")
     # encryption / fix_key options on short histories
     add("en", "sim", num=16 * n, ver=2 - s % 2, lf=1, slack=31, names=4, init=1, minlen=4, maxlen=4, enc=2)
     # V3 / V4 starting archives
@@ -86,12 +106,16 @@ def _gen_one(ctx, item):
         rc, text = ctx.tlc(GEN, env=env, workers=1, timeout=900, simulate=f"num={num}", heap="2g",
                            extra=("-depth", str(maxlen * 45 + 100), "-seed", str(ctx.seed * 7919 + k)), tag="gen-" + cls)
     else:
-        rc, text = ctx.tlc(GEN, env=env, workers=1, timeout=1500, tag="gen-" + cls, heap="6g")
+        rc, text = ctx.tlc(GEN, env=env, workers=2 if cls == "x5" else 1, timeout=1500, tag="gen-" + cls, heap="6g")
     lines = [l.strip() for l in text.splitlines() if l.startswith('"CASE ')]
     if not lines or (not num and "No error has been found" not in text):
         raise core.ToolError(f"stage B: generator class {cls} failed rc={rc}:\n" + core._tail(text))
     out = []
-    for i, r in enumerate(sorted(set(json.loads(l)[5:] for l in lines))):
+    allc = sorted(set(json.loads(l)[5:] for l in lines))
+    x5mod = max(1, len(allc) // (6000 if ctx.thorough else 900))
+    for i, r in enumerate(allc):
+        if cls == "x5" and (i + ctx.seed) % x5mod:
+            continue            # seed-rotated residue class of the canonical enumeration
         if not num and cls in ("xa", "sb") and (i + ctx.seed + (cls == "sb")) % ((6 if cls == "xa" else 12) if ctx.thorough else (3 if cls == "xa" else 6)):
             # ... but every history with a flush immediately followed by compact / reopen+compact stays in
             # (compact() must take its view from the file as flushed, not from an older snapshot)
@@ -125,9 +149,9 @@ def generate(ctx):
     return path, cases, per
 
 
-def expect_violation(ctx, cfg, what):
+def expect_violation(ctx, cfg, what, module="MC_MpqHashTable"):
     """The implementation machine must violate the design invariant (TLC exhibits the defect on the model)."""
-    rc, text = ctx.tlc("MC_MpqHashTable", cfg, workers=2, timeout=300, tag="mc-" + cfg)
+    rc, text = ctx.tlc(module, cfg, workers=2, timeout=300, tag="mc-" + cfg)
     if what not in text:
         raise core.ToolError(f"stage A: {cfg}: expected `{what}`:\n" + core._tail(text))
     adds = len(re.findall(r'^State \d+: <Begin\("add"', text, re.M))
@@ -157,7 +181,7 @@ def sig(b):
         kinds = [p.get("kind") for p in (r.get("preds") or [])]
         ck = rec.get("ck", 0)
         s["model"] = "asmodel" if 0 < ck <= len(kinds) and kinds[ck - 1] == "unopenable" else "notmodel"
-    elif b.get("ev") not in ("Read", "List", "SRead"):
+    elif b.get("ev") not in ("Read", "List", "SRead", "LfRaw", "Attrs"):
         # a call whose result no map operation explains: is it the result the model of the code predicted?
         pres = r.get("pres") or []
         oi = rec.get("oi", 0)
@@ -191,6 +215,15 @@ def run(ctx, cases_override=None):
         lambda: expect_violation(ctx, "MC_MpqHashTable_codeG", "Invariant AbsClean is violated"),                 # 22716d7
         lambda: expect_violation(ctx, "MC_MpqHashTable_codeH", "Invariant SessionReadStaleAgrees is violated"),   # 9c6ca29
         lambda: expect_violation(ctx, "MC_MpqHashTable_codeI", "Invariant CursorBehindImage is violated"),        # hypothetical (seeded s7)
+        # growth round 4: the special-file sub-machine (MpqMap x MpqMapSpecials): the design satisfies the listfile / attributes
+        # invariants; each deviation of the code as it is now is refuted by TLC
+        lambda: ctx.mc("MC_MpqMapSpecials", cfg="MC_MpqMapSpecials_T" if thorough else "MC_MpqMapSpecials", timeout=1500, workers=4),
+        lambda: expect_violation(ctx, "MC_MpqMapSpecials_devA", "Invariant ListfileNoStale is violated", "MC_MpqMapSpecials"),
+        lambda: expect_violation(ctx, "MC_MpqMapSpecials_devB", "Invariant AttrRowsDescribe is violated", "MC_MpqMapSpecials"),
+        lambda: expect_violation(ctx, "MC_MpqMapSpecials_devC", "Action property AttrUntouchedRowsKept is violated", "MC_MpqMapSpecials"),
+        # hypothetical deviations (round-4 seeded changes 3 and 2): stale view of a big listfile; compact() skipping stored size 0
+        lambda: expect_violation(ctx, "MC_MpqMapSpecials_devD", "Invariant ListfileComplete is violated", "MC_MpqMapSpecials"),
+        lambda: expect_violation(ctx, "MC_MpqHashTable_codeJ", "Action property AtomicRefines is violated"),
     ]
     # stage A runs concurrently with generation, build and replay; it is joined before the verdict
     import concurrent.futures as cf
@@ -242,11 +275,11 @@ def run(ctx, cases_override=None):
             elif len(samples) < 8 and r["ev"] in ("Add", "Read", "Rename"):
                 samples.append(r)
     pred_drift = sum(1 for d in ctx.drift if "pred" in d["what"])
-    attrs_drift = sum(1 for d in ctx.drift if "attrs" in d["what"])
-    if attrs_drift:
-        ctx.notes.append(f"D-level: at {attrs_drift} of {kinds.get('Attrs', 0)} checkpoints of archives with (attributes) the recorded CRC32 of some readable file "
-                         "differs from the CRC32 of its content (after an addition update_attributes cannot parse the stored attributes with the grown "
-                         "block count and rebuilds them with zeroed CRCs); proposed fix fixes/C06-attributes-keep-crc.patch; integrity metadata is C10's subject")
+    attrs_drift = sum(1 for d in ctx.drift if "atmodel" in d["what"])
+    lf_drift = sum(1 for d in ctx.drift if "lfmodel" in d["what"])
+    if attrs_drift or lf_drift:
+        ctx.notes.append(f"D-level: the special files a fresh open finds differ from the prediction of the as-coded sub-machine (MpqMapSpecials) at "
+                         f"{lf_drift} LfRaw and {attrs_drift} Attrs checkpoints although the property-level conjuncts hold there")
     cov = {
         "traces_validated_against_impl": res["traces"],
         "samples": samples,
@@ -258,9 +291,9 @@ def run(ctx, cases_override=None):
         "distinct_nontrivial": sum(v for k, v in hist_len.items() if k >= 2),
         "rule": "one case = one operation history (TLC-generated, with a starting-archive class) replayed on a real MutableArchive; non-trivial = at least two calls; histories are distinct within a class by construction (set of TLC CASE lines)",
         "exhaustive": False,
-        "exhaustive_part": "classes xa/xb: TLC enumerates every history up to the length bound over 3 names x {add(rep),add(norep),remove,rename,compact,flush,reopen}; xb is replayed completely, xa as a seed-rotated residue class (quick 1/3 of <= 3 calls plus every history with flush/reopen directly followed by compact, thorough 1/6 of <= 4 calls); class sb likewise with a substring name pair; r4/r5 are random samples of the 4- and 5-call histories",
+        "exhaustive_part": "class x5: TLC enumerates every canonical history of <= 4 calls over 4 names behind a forced prologue that leaves 2 free hash slots (40 904), a seed-rotated residue class is replayed; class xl: every history of <= 2 (thorough 3) calls with long names; classes xa/xb: TLC enumerates every history up to the length bound over 3 names x {add(rep),add(norep),remove,rename,compact,flush,reopen}; xb is replayed completely, xa as a seed-rotated residue class (quick 1/3 of <= 3 calls plus every history with flush/reopen directly followed by compact, thorough 1/6 of <= 4 calls); class sb likewise with a substring name pair; r4/r5 are random samples of the 4- and 5-call histories",
         "code_model_prediction_drift": pred_drift,
-        "attributes_crc_drift": attrs_drift,
+        "specials_model_drift": {"listfile": lf_drift, "attributes": attrs_drift},
     }
     ctx.drift = [d for d in ctx.drift if "list" not in d["what"]][:17] + [d for d in ctx.drift if "list" in d["what"]][:3]
     assumptions = ["single process, no concurrent writer; the file system does not fail",
